@@ -18,6 +18,7 @@ package entrypoint
 
 //@ func (i IBCMiddleware) OnRecvPacket(ctx, packet, relayer) (ack)
 //@   requires[inv] i.IBCModule != nil && i.payloadAdapter != nil
+//@   requires[C01] bankNonneg(bank)
 //@   modifies ghosts
 //
 //   C07: traffic not addressed to the orbiter is handed to the wrapped application exactly once, with
